@@ -160,6 +160,13 @@ def programs(draw, tier):
         if ok_events:
             prog['until'] = ['event', draw(st.sampled_from(ok_events))]
     prog['watch'] = [k for k in range(nev) if k not in failed_events and draw(st.booleans())]
+    if draw(st.integers(0, 2)) == 0:
+        # native activities that handle an event's failure and go on, next to others that die of it
+        prog['watch'] = [k for k in range(nev) if draw(st.integers(0, 3)) > 0]
+        prog['watch_hold'] = draw(st.sampled_from([0.5, 1.5, 3]))
+        prog['careless'] = [k for k in range(nev) if draw(st.booleans())]
+        # (the failures of these events are defused by a callback, so that the run does not depend on the watchers)
+        prog['defusers'] = sorted(set(prog['defusers']) | (failed_events & (set(prog['watch']) | set(prog['careless']))))
     return prog
 
 
@@ -290,11 +297,21 @@ class C18(Check):
             if hcb != wcb:
                 out.fail('callbacks', pre + ('count' if len(hcb) != len(wcb) else 'time'), 'callbacks ran %r, model %r' % (hcb, wcb))
         # ---- native watchers (embedded): same value / time as the trigger
+        end = got2.get('now_inside')
         for (k, kind, t, v) in real2.watch_log:
             ev = model.events[k]
-            if ev.state is None or ev.time != t or kind != 'got' or norm_payload(v) != ev.state[1]:
-                out.fail('native_waiter', 'value_or_time', 'activity awaiting event %d got %r at %r; model %r at %r' % (
-                    k, v, t, ev.state, ev.time))
+            if kind == 'held':
+                continue
+            want_kind = 'got' if ev.state is not None and ev.state[0] == 'ok' else 'raised'
+            if ev.state is None or ev.time != t or kind != want_kind or norm_payload(v) != ev.state[1]:
+                out.fail('native_waiter', 'value_or_time', 'activity awaiting event %d %s %r at %r; model %r at %r' % (
+                    k, kind, v, t, ev.state, ev.time))
+            elif prog.get('watch_hold') and end is not None and got2['outcome'] == 'ok' and t + prog['watch_hold'] < end and \
+                    (k, 'held', t + prog['watch_hold'], None) not in real2.watch_log:
+                out.fail('native_waiter', 'handler_did_not_go_on', 'the activity that %s event %d at %r never reached the end of '
+                         'its %r pause (the simulation went on until %r); careless awaiters of %r' % (
+                             kind, k, t, prog['watch_hold'], end, prog.get('careless')))
+                out.features.add('careless_watcher')
         out.nontrivial = interacting and len(prog['procs']) >= 2
         if prog.get('until') is not None:
             out.features.add('until_' + ('event' if isinstance(prog['until'], list) else 'time'))
